@@ -75,6 +75,10 @@ def run(case):
     path = np.array(case['path'], float)
     T, N, _ = path.shape
     M = np.array(case['lattice']['matrix'], float)
+    if case.get('swap_axes'):
+        # the same crystal described with two cell vectors exchanged (a left-handed set of cell vectors)
+        M = M[[1, 0, 2]]
+        path = path[:, :, [1, 0, 2]]
     sym, dt, temp = case['symbols'], case['time_step'], case['temperature']
     z, dims, k, s, n_parts = case['z_ion'], case['dimensions'], case['k'], case['s'], case['n_parts']
 
@@ -176,6 +180,19 @@ def run(case):
     else:
         split_done = False
 
+    # ---- mean / std over a list of independent trajectories (different volume, time step and temperature)
+    from gemdat.metrics import TrajectoryMetricsStd as _Std
+
+    reps = [(M, dt, temp), (M * k, dt, temp + 50.0), (M, dt * s, temp)]
+    rt = [cases.trajectory(path - np.floor(path), sym, m_, d_, t_, case['species_kind']) for m_, d_, t_ in reps]
+    own = [own_metrics(path, m_, sym, d_, t_, z, dims) for m_, d_, t_ in reps]
+    sr = _Std(rt)
+    for name, fn, key in [('tracer_diffusivity', lambda: sr.tracer_diffusivity(dimensions=dims), 'tracer_diffusivity'), ('tracer_conductivity', lambda: sr.tracer_conductivity(z_ion=z, dimensions=dims), 'tracer_conductivity')]:
+        u = gcall(fn)
+        vals = np.array([q[key] for q in own])
+        if not close(u.n, vals.mean(), 1e-8) or abs(u.s - vals.std()) > 1e-8 * max(abs(vals.mean()), vals.std()):
+            raise Violation('std-over-list-' + name, f'reported {u.n!r} +/- {u.s!r}, numpy mean/population std of the per-trajectory values {vals.mean()!r} +/- {vals.std()!r}')
+
     fam = case['lattice']['family']
     labels = [fam, f'dims={dims}', 'z=' + str(z), 'parts' if split_done else 'no-parts']
     nt = (k != 1 or s != 1) and abs(z) != 1 and len(set(masses(sym).tolist())) >= 2 and fam != 'cubic'
@@ -198,6 +215,7 @@ def metric_cases(draw, tier):
     c['k'] = draw(st.sampled_from([0.25, 0.5, 1.0, 1.7, 3.0, 4.0]))
     c['s'] = draw(st.sampled_from([0.25, 0.5, 1.0, 2.0, 3.3, 4.0]))
     c['extend_at'] = draw(st.integers(0, T))
+    c['swap_axes'] = draw(st.sampled_from([False, False, True]))
     c['n_parts'] = draw(st.integers(2, max(2, min(5, (T - 1) // 3))))
     return c
 
